@@ -21,7 +21,8 @@ REGISTRY = {}      # qualname -> Contract
 class Contract:
     def __init__(self, qualname, props, instances, requires=(), ensures=(), effects=(), raises=(), modifies=(),
                  loops=None, comps=None, returns=None, decreases=None, trusted=False, note="", canaries=(),
-                 call_when=None, pure=False, gen=None):
+                 call_when=None, pure=False, gen=None, may_raise=()):
+        self.may_raise = list(may_raise)            # exceptions the function may raise exactly as its base class does
         self.gen = gen                              # fold contract of a generator function
         self.qualname = qualname
         self.props = list(props)
@@ -101,6 +102,27 @@ def make_param(eng, kind, hint):
         return AssignVal("spin", "list")
     if kind == "none":
         return None
+    if kind == "rid":
+        from . import lists as LS
+        return LS.new_rid(eng, hint)
+    if kind == "optrid":
+        return eng.fresh_optrid(hint)
+    if kind == "slice":
+        return SV(None, "slice")
+    if kind == "newresults":
+        from . import lists as LS
+        o = eng.alloc(PObj(eng.db.classes["AnnealResults"]))
+        o.lstore = eng.alloc(LS.LHolder(LS.empty(eng)))
+        return o
+    if kind == "resiter":
+        from . import lists as LS
+        return LS.ResIter()
+    if kind.startswith("results"):
+        from . import lists as LS
+        o = eng.alloc(PObj(eng.db.classes["AnnealResults"]))
+        o.lstore = eng.alloc(LS.LHolder(LS.base(eng, hint)))
+        o.attrs["best"] = eng.fresh_optrid(hint + "_best")
+        return o
     if kind.startswith("class:"):
         return ClassRef(eng.db.classes[kind[6:]])
     if kind.startswith("const:"):
@@ -160,6 +182,8 @@ def make_result(eng, kind, env, hint="result"):
         return env[kind[6:]]
     if kind.startswith("fresh:model:"):
         return make_model(eng, kind.split(":", 2)[2], hint)
+    if kind == "fresh:results":
+        return make_param(eng, "results", hint)
     return make_param(eng, kind, hint)
 
 
@@ -423,6 +447,9 @@ def _run_path(eng, c, cl, inst, cls):
         raised = e
     finally:
         eng.call_stack.pop()
+    if raised is not None and raised.name in c.may_raise:
+        eng.oblige("%s/may_raise:%s" % (qn, raised.name), True)
+        return
     if raised is not None:
         conds = [eng.spec_bool(cond, env, fr0) for exc, cond in c.raises if exc == raised.name]
         goal = z3.Or(*conds) if conds else z3.BoolVal(False)
@@ -514,9 +541,14 @@ def _current_of(eng, key, env):
                 visit(val, seen)
             if v.store is not None:
                 visit(v.store, seen)
+            if getattr(v, "lstore", None) is not None:
+                visit(v.lstore, seen)
         elif isinstance(v, SetVal):
             seen.add(id(v))
             found[id(v)] = (v.mem, v.card)
+        elif type(v).__name__ == "LHolder":
+            seen.add(id(v))
+            found[id(v)] = v.ver
         elif isinstance(v, ListVal):
             seen.add(id(v))
             found[id(v)] = list(v.items)
@@ -532,6 +564,10 @@ def _current_of(eng, key, env):
 def _unchanged(eng, cur, oldv):
     if cur is oldv:
         return True
+    if type(cur).__name__ == "LVer" and type(oldv).__name__ == "LVer":
+        return z3.And(cur.cnt == oldv.cnt, cur.length == oldv.length)
+    if type(cur).__name__ == "OptRid" and type(oldv).__name__ == "OptRid":
+        return z3.And(cur.isnone == oldv.isnone, z3.Implies(z3.Not(cur.isnone), cur.rid == oldv.rid))
     if isinstance(cur, Ver) and isinstance(oldv, Ver):
         return z3.And(cur.dom == oldv.dom, cur.val == oldv.val)
     if isinstance(cur, tuple) and isinstance(oldv, tuple) and len(cur) == 2 and z3.is_expr(cur[0]):
